@@ -34,6 +34,14 @@ def Kept (s : Rat) (above : Option GLayer) (l : GLayer) : Prop :=
   (roundF 2 (l.centre.div s)).truthy = true ∨
     defaultCentre above (canonLayer s l).bottom = (roundF 2 (l.centre.div s)).mul s
 
+theorem ofFVal_coord (p : Nat) (x : Flt) :
+    ofFVal (.fin x.isNeg (roundHalfEven (x.absNum * 10 ^ p) x.den) (-(p : Int))) = some (roundF p x) :=
+  ofFVal_fin _ _ _
+
+theorem fltOf_coord (p : Nat) (x : Flt) :
+    fltOf (.flt (.fin x.isNeg (roundHalfEven (x.absNum * 10 ^ p) x.den) (-(p : Int)))) = .ok (roundF p x) :=
+  fltOf_fin _ _ _
+
 theorem layerStep_line {LL : Nat} {s : Rat} {l : GLayer} (hLL : LL ≤ 3) (h : LayerOK LL s l) (g : Geo)
     (hfresh : l.name ∉ g.layers.map (·.name)) (hk : Kept s g.layers.getLast? l) (tail : Str) :
     layerStep SP LL s g (recText (layerItems s l) ++ tail)
@@ -42,27 +50,20 @@ theorem layerStep_line {LL : Nat} {s : Rat} {l : GLayer} (hLL : LL ≤ 3) (h : L
   have hp := parse_items .default (layerItems s l) (layerItems_ok hLL h) tail
   have : SP.layer = (layerItems s l).map (·.1) := rfl
   rw [this, hp]
-  simp only [layerItems, coordItem, nameItem, List.map_cons, List.map_nil, strOf, fltOf_fin, ofFVal_fin, bind, Except.bind,
+  simp only [layerItems, coordItem, nameItem, List.map_cons, List.map_nil, strOf, fltOf_coord, ofFVal_coord, bind, Except.bind,
     pure, Except.pure, fixName_ljust hLL h.name, lookupLayer_none hfresh, Option.isNone_some, Option.isSome_none,
     Bool.false_eq_true, if_false]
-  congr 2
-  have hc : canonLayer s l = { name := l.name, bottom := canonC 2 s l.bottom, centre := canonC 2 s l.centre, top := .q 0 } := rfl
-  rw [hc]
-  congr 2
-  -- the centre
-  unfold Kept at hk
-  change (match (if (roundF 2 (l.centre.div s)).truthy = true then some (roundF 2 (l.centre.div s)) else none) with
-    | some c => c.mul s
-    | none => match g.layers.getLast? with
-      | some above => ((canonC 2 s l.bottom).add above.bottom).mul (1 / 2)
-      | none => canonC 2 s l.bottom) = canonC 2 s l.centre
+  unfold Kept defaultCentre canonLayer canonC at hk
+  simp only at hk
+  unfold canonLayer canonC
   by_cases ht : (roundF 2 (l.centre.div s)).truthy = true
-  · rw [if_pos ht]; rfl
-  · rw [if_neg ht]
+  · simp only [ht, if_true]
+  · simp only [ht, Bool.false_eq_true, if_false]
     rcases hk with hk | hk
     · exact absurd hk ht
-    · simp only [defaultCentre, hc] at hk
-      exact hk
+    · cases hl : g.layers.getLast? with
+      | none => rw [hl] at hk; simp only at hk ⊢; rw [hk]
+      | some a => rw [hl] at hk; simp only at hk ⊢; rw [hk]
 
 theorem getLast?_cons' {α : Type} (a : α) (l : List α) :
     (a :: l).getLast? = match l.getLast? with | some x => some x | none => some a := by
@@ -161,9 +162,6 @@ theorem readSection_layer {g : Geo} {L LL : Nat} {s : Rat} (env : Env g L LL s) 
   simp only [List.nil_append]
   unfold finishLayers
   rw [hls]
-  simp only [List.map_cons]
-  rw [hcl, hls]
-  simp only [List.map_cons]
   rfl
 
 /-! ### SURFA -/
@@ -212,8 +210,10 @@ theorem foldl_setSurface : ∀ (items : List (Str × Flt)) (g : Geo), (items.map
   induction items with
   | nil =>
     intro g _
-    simp only [List.foldl_nil, applySurf, List.lookup_nil]
-    cases g; simp
+    have : g.columns.map (applySurf g.layers []) = g.columns := by
+      have h2 : ∀ c ∈ g.columns, applySurf g.layers [] c = id c := fun c _ => rfl
+      rw [List.map_congr_left h2, List.map_id]
+    rw [List.foldl_nil, this]
   | cons nz r ih =>
     intro g hd
     rw [List.map_cons, List.nodup_cons] at hd
@@ -227,10 +227,12 @@ theorem foldl_setSurface : ∀ (items : List (Str × Flt)) (g : Geo), (items.map
     · rw [if_pos hc]
       have hl : List.lookup (surfUpd g.layers nz.2 c).name r = none := by
         rw [List.lookup_eq_none_iff]
-        intro p hp hpe
+        intro p hp
         have : (surfUpd g.layers nz.2 c).name = c.name := rfl
-        rw [this, hc] at hpe
-        exact hd.1 (List.mem_map.mpr ⟨p, hp, by simpa using hpe.symm⟩)
+        rw [this, hc]
+        simp only [bne_iff_ne, ne_eq]
+        intro hpe
+        exact hd.1 (List.mem_map.mpr ⟨p, hp, hpe.symm⟩)
       rw [hl]
       have : List.lookup c.name (nz :: r) = some nz.2 := by
         rw [List.lookup_cons]; simp [hc]
@@ -241,5 +243,65 @@ theorem foldl_setSurface : ∀ (items : List (Str × Flt)) (g : Geo), (items.map
         have : (c.name == nz.1) = false := by simpa using hc
         rw [this]
       rw [this]
+
+def surfPairs (cs : List GColumn) : List (Str × Flt) :=
+  cs.filterMap fun c => if c.defaultSurface then none else c.surface.map fun z => (c.name, z)
+
+def canonPair (s : Rat) (nz : Str × Flt) : Str × Flt := (nz.1, canonC 2 s nz.2)
+
+def surfTextLines (s : Rat) (cs : List GColumn) : List Str :=
+  (surfPairs cs).map fun nz => recText (surfItems s nz.1 nz.2) ++ ['\n']
+
+theorem lookupColumn_isSome {cs : List GColumn} {name : Str} (h : name ∈ cs.map (·.name)) :
+    (lookupColumn cs name).isSome = true := by
+  unfold lookupColumn
+  rw [List.find?_isSome]
+  obtain ⟨c, hc, he⟩ := List.mem_map.mp h
+  exact ⟨c, hc, by simpa using he⟩
+
+theorem mem_names_of_lookupColumn {cs : List GColumn} {name : Str} (h : (lookupColumn cs name).isSome = true) :
+    name ∈ cs.map (·.name) := by
+  unfold lookupColumn at h
+  rw [List.find?_isSome] at h
+  obtain ⟨c, hc, he⟩ := h
+  exact List.mem_map.mpr ⟨c, hc, by simpa using he⟩
+
+theorem setSurface_names (g : Geo) (name : Str) (z : Flt) :
+    (setSurface g name z).columns.map (·.name) = g.columns.map (·.name) := by
+  rw [setSurface_eq]
+  simp only [List.map_map]
+  apply List.map_congr_left
+  intro c _
+  simp only [Function.comp]
+  split <;> rfl
+
+theorem foldl_setSurface_names (s : Rat) (items : List (Str × Flt)) (g : Geo) :
+    (items.foldl (fun g nz => setSurface g nz.1 (canonC 2 s nz.2)) g).columns.map (·.name) = g.columns.map (·.name) := by
+  induction items generalizing g with
+  | nil => rfl
+  | cons a r ih => rw [List.foldl_cons, ih, setSurface_names]
+
+theorem readSection_surfa {g : Geo} {L LL : Nat} {s : Rat} (env : Env g L LL s) (pairs : List (Str × Flt))
+    (hok : ∀ nz ∈ pairs, NameShape L nz.1 ∧ fitsC 2 s nz.2 = true ∧ nz.1 ∈ g.columns.map (·.name))
+    (hd : (pairs.map (·.1)).Nodup) (tail : List Str) :
+    readSection SP .surfa g ((pairs.map fun nz => recText (surfItems s nz.1 nz.2) ++ ['\n']) ++ ['\n'] :: tail)
+      = .ok ({ g with columns := g.columns.map (applySurf g.layers (pairs.map (canonPair s))) }, tail) := by
+  unfold readSection
+  simp only [env.cl, env.ll, env.sc, bind, Except.bind]
+  have := simpleSection (surfaceStep SP L s) (fun g nz => setSurface g nz.1 (canonC 2 s nz.2))
+    (fun nz => recText (surfItems s nz.1 nz.2)) pairs g tail (by
+      intro pre a post e
+      obtain ⟨h1, h2, h3⟩ := hok a (by rw [e]; simp)
+      refine ⟨nonblank_of_name h1 _, fun extra => ?_⟩
+      apply surfaceStep_line env.hL h1 h2
+      apply lookupColumn_isSome
+      rw [foldl_setSurface_names]; exact h3)
+  rw [this]
+  have e : pairs.foldl (fun g nz => setSurface g nz.1 (canonC 2 s nz.2)) g
+      = (pairs.map (canonPair s)).foldl (fun g nz => setSurface g nz.1 nz.2) g := by
+    rw [List.foldl_map]; rfl
+  rw [e, foldl_setSurface]
+  rw [List.map_map]
+  exact hd
 
 end Proofs.GeoFile
